@@ -119,6 +119,15 @@ extern real_t verif_nan_value, verif_inf_value;
 #define VEC_INIT_EMPTY(v) ((v).size = 0)
 #define VEC_CLEAR(v) ((v).size = 0)
 #define VEC_PUSH(v, x) do { (v).data[(v).size] = (x); (v).size++; } while (0)
+/* stream.read(v.data(), n): bytes [0, n) of v become arbitrary (file content, or indeterminate after a short read) */
+#define SRC_READ_VEC(v, n) do { __CPROVER_assert(verif_thrown || (unsigned long)(n) <= (v).size, "read: count within the destination buffer"); \
+    __typeof__(v) verif_h; unsigned long verif_n = (n); __CPROVER_assume(verif_h.size == (v).size); \
+    __CPROVER_assume(__CPROVER_forall { unsigned long verif_q; (verif_q >= verif_n) ==> verif_h.data[verif_q] == (v).data[verif_q] }); (v) = verif_h; } while (0)
+#define OPQ_ELEM(c, i) ((void)(i), (c_opaque)0)
+/* v.data() / s.c_str(): only meaningful as the argument of a modelled library call */
+#define VEC_DATA(v) (v)
+/* strtof & co. read up to the terminating NUL: it must lie inside the buffer */
+#define V_STRTOX(fn, v) ({ __CPROVER_assert(verif_thrown || __CPROVER_exists { unsigned long verif_q; verif_q < (v).size && (v).data[verif_q] == 0 }, #fn ": argument is NUL-terminated inside its buffer"); real_t verif_r; verif_r; })
 #define OPT_VAL(o) ((o).val)
 #define UPTR_VAL(p) (p)
 #define OPT_SET(o, v) ((o).val = (v), (o).has = 1)
